@@ -30,6 +30,9 @@ type c08Config struct {
 	// (its logical clock starts there): long-lived caches are part of "every history".
 	Uptime     int64 `json:"simulated_earlier_accesses"`
 	SweepEvery int   `json:"sweep_every"`
+	// Optional settings of cache.Config left out in some runs.
+	NoCallback  bool `json:"no_eviction_callback"`
+	DefaultSize bool `json:"default_size_function"`
 }
 
 // forceDeep (experiments only, VERIF_C08_DEEP=1) makes every non-churn run a deep run.
@@ -180,7 +183,11 @@ func runC08(ch chooser.Chooser, st *Stats, mk cacheMaker) *Outcome {
 		base := []int64{1 << 31, 1 << 32, 1 << 62}[ch.Draw(3, "uptime")]
 		cfg.Uptime = base - int64(1+ch.Draw(300, "uptimeoff"))
 	}
-	env := &cacheEnv{limit: int64(cfg.Limit), sized: cfg.Sized, cbs: make([][]KV, 1), cur: func() int { return 0 }, uptime: cfg.Uptime}
+	// Configuration swarm: the optional settings of cache.Config are optional.
+	cfg.NoCallback = ch.Draw(5, "nocallback") == 4
+	cfg.DefaultSize = ch.Draw(3, "defaultsize") == 2
+	env := &cacheEnv{limit: int64(cfg.Limit), sized: cfg.Sized, cbs: make([][]KV, 1), cur: func() int { return 0 }, uptime: cfg.Uptime,
+		noCallback: cfg.NoCallback, defaultSize: cfg.DefaultSize}
 	var c cacheAPI
 	if p := safely(func() { c = mk(env) }); p != "" {
 		return &Outcome{Violation: &Violation{"panic", "constructing the cache panicked: " + p}}
@@ -211,6 +218,13 @@ func runC08(ch chooser.Chooser, st *Stats, mk cacheMaker) *Outcome {
 		steps = append(steps, c08Step{op.String(), ob.String()})
 		h.str(op.String())
 		h.str(ob.String())
+		if cfg.NoCallback {
+			// no callback installed: what it would have been told is unobservable
+			ex.victims, ex.replaced, ex.anyOrder = nil, nil, nil
+			if op.Kind == OpClear {
+				ex.anyOrder = []KV{}
+			}
+		}
 		if class, d := ex.match(op, ob); class != "" {
 			return fail(class, d+fmt.Sprintf(" [reference state before the call, least recent first: %s limit=%d]", before.encode(), m.limit), i+1)
 		}
@@ -297,6 +311,9 @@ func runC08(ch chooser.Chooser, st *Stats, mk cacheMaker) *Outcome {
 	}
 	if cfg.Uptime > 0 {
 		st.Inc("fault:long_uptime_clock_near_2^31_2^32_2^62", 1)
+	}
+	if cfg.NoCallback {
+		st.Inc("probe:cache_without_eviction_callback", 1)
 	}
 	st.Max("max:entries_held", int64(m.maxLen))
 	if m.maxLen >= 7 {
